@@ -437,6 +437,12 @@ def simplify_success(succ):
         return succ[0]
     if len(succ) == 2:
         (c1, n1, p1, a1, ap1), (c2, n2, p2, a2, ap2) = succ
+        if n1 != n2:
+            # one arm leaves the elements it does not replace where they are: the same effect written on the larger window
+            n = max(n1, n2)
+            p1 = [("slot", i) for i in range(n, n1, -1)] + list(p1)
+            p2 = [("slot", i) for i in range(n, n2, -1)] + list(p2)
+            n1 = n2 = n
         if n1 == n2 and a1 == a2 and ap1 == ap2 and len(c1) == len(c2) and c1[:-1] == c2[:-1] and len(p1) == len(p2):
             cond = _truth(c1[-1])
             if norm(("not", cond)) != _truth(c2[-1]) and norm(("not", _truth(c2[-1]))) != cond:
@@ -452,10 +458,22 @@ def simplify_success(succ):
                     sel = _select(cond, x[1], y[1])
                     if sel is not None:
                         return (c1[:-1], n1, p1[:-1] + [("enc", sel)], a1, ap1)
+                # one arm pushes a re-encoded number, the other leaves the raw element it decoded: not the same element for non-minimal encodings
+                for enc_arm, raw_arm, cnd in ((x, y, cond), (y, x, norm(("not", cond)))):
+                    if enc_arm[0] == "enc" and raw_arm[0] == "slot" and ("dec", raw_arm) in _subterms(enc_arm):
+                        return (c1[:-1], n1, p1[:-1] + [("sel", cnd, enc_arm, ("raw", raw_arm))], a1, ap1)
             # IFDUP style: one arm pushes nothing extra
             if len(p1) != len(p2):
                 return None
     return None
+
+
+def _subterms(t):
+    out = [t]
+    if isinstance(t, tuple):
+        for x in t[1:]:
+            out += _subterms(x)
+    return out
 
 
 def _select(cond, a, b):
